@@ -72,6 +72,15 @@ class RecSource(ScheduleSource):
                     for s_ in listed]
         return listed
 
+    async def add_schedule(self, schedule: ScheduledTask) -> None:
+        # (what the kicker's schedule_by_time / schedule_by_cron call)
+        if getattr(self, "pending", None) is not None:
+            name, raw = self.pending
+            self.rec.alias[schedule.schedule_id] = name
+            self.raw_time[schedule.schedule_id] = raw
+        self.items.append(schedule)
+        self.rec.add("added", src=self.idx, sid=schedule.schedule_id)
+
     def pre_send(self, task: ScheduledTask) -> Any:
         self.rec.add("pre_send", src=self.idx, sid=task.schedule_id)
         if task.schedule_id in self.spec.get("cancel", []):
@@ -141,8 +150,15 @@ class RecBroker(AsyncBroker):
 class Rec:
     def __init__(self) -> None:
         self.ev: List[Dict[str, Any]] = []
+        # schedule ids generated by the library (schedules created through a kicker) -> the scenario's name for them
+        self.alias: Dict[str, str] = {}
 
     def add(self, kind: str, **data: Any) -> None:
+        if self.alias:
+            if data.get("sid") in self.alias:
+                data["sid"] = self.alias[data["sid"]]
+            if "ids" in data:
+                data["ids"] = [self.alias.get(x, x) for x in data["ids"]]
         e = {"i": len(self.ev), "us": S.Clock.now_us(), "k": kind}
         e.update(data)
         self.ev.append(e)
@@ -236,6 +252,15 @@ def gen_c15_spec(rng: random.Random, minutes_max: int) -> Dict[str, Any]:
     if rng.random() < 0.3:
         spec["sleep_overshoot"] = rng.choice([0.01, 0.05, 0.2, 0.3])
     if rng.random() < 0.2:
+        # schedules created at run time through schedule_by_time / schedule_by_cron of one kicker object
+        for src_ in sources:
+            if src_.get("by_ref"):
+                continue
+            for it_ in src_["items"]:
+                if not it_.get("bad") and it_.get("offset") is None and rng.random() < 0.7:
+                    it_["via_kicker"] = True
+                    it_.pop("remove_at", None)
+    if rng.random() < 0.2:
         spec["task_start_lat"] = rng.choice([0.001, 0.05, 0.2])  # send tasks get to run that much after they were created
     if rng.random() < 0.15:
         # a listing that takes longer than a minute (a store that hangs): the next evaluation is more than a minute after
@@ -281,6 +306,9 @@ def run_c15(spec: Dict[str, Any]) -> "tuple[Rec, Dict[str, Any]]":
         S.Clock.source = lambda: spec["start_us"] + int(round(loop.time() * 1_000_000))
         broker = RecBroker(rec, spec)
         sources = [RecSource(i, rec, s) for i, s in enumerate(spec["sources"])]
+        from taskiq.kicker import AsyncKicker
+
+        shared_kicker: Any = AsyncKicker("tk", broker, {})
         for src, ss in zip(sources, spec["sources"]):
             for it in ss["items"]:
                 if "cron" in it:
@@ -295,7 +323,21 @@ def run_c15(spec: Dict[str, Any]) -> "tuple[Rec, Dict[str, Any]]":
                                        time=S.mk_time(it["time_us"], tzs))
                     src.raw_time[it["id"]] = S.mk_time(it["time_us"], tzs)
 
-                def _add(src: RecSource = src, st: ScheduledTask = st) -> None:
+                def _add(src: RecSource = src, st: ScheduledTask = st, it: Dict[str, Any] = it) -> None:
+                    if it.get("via_kicker"):
+                        # created through the scheduling helpers of one kicker object that the application keeps
+                        # (the library generates the schedule id)
+                        async def _k() -> None:
+                            src.pending = (it["id"], src.raw_time.get(it["id"]))  # type: ignore[attr-defined]
+                            try:
+                                if st.cron is not None:
+                                    await shared_kicker.schedule_by_cron(src, st.cron)
+                                else:
+                                    await shared_kicker.schedule_by_time(src, src.raw_time[it["id"]])
+                            finally:
+                                src.pending = None  # type: ignore[attr-defined]
+                        asyncio.ensure_future(_k())
+                        return
                     src.items.append(st)
                     rec.add("added", src=src.idx, sid=st.schedule_id)
 
@@ -720,11 +762,12 @@ class DelegatingSource(ScheduleSource):
             return _Aw(coro)
         return coro
 
-    def pre_send(self, task: ScheduledTask) -> Any:  # type: ignore[override]
-        return self._ret(self.inner.pre_send(task))
+    # (parameter names of its own - like the bundled label source's post_send(scheduled_task) - and positional-only)
+    def pre_send(self, scheduled_task: ScheduledTask) -> Any:  # type: ignore[override]
+        return self._ret(self.inner.pre_send(scheduled_task))
 
-    def post_send(self, task: ScheduledTask) -> Any:  # type: ignore[override]
-        return self._ret(self.inner.post_send(task))
+    def post_send(self, sent: ScheduledTask, /) -> Any:  # type: ignore[override]
+        return self._ret(self.inner.post_send(sent))
 
 
 class InstSource(ScheduleSource):
